@@ -324,6 +324,17 @@ def main(argv):
             cfg['search'](prop, tier, wdir, mpv, violations, notes)
         except Exception as e:  # the search is best effort
             notes.append('failing-input search failed: %s' % e)
+    # ... and for every property: the generators run again with two other seeds (only in this situation, so an unchanged tree never
+    # pays for it); what they find is reported with its replay, what they do not find leaves the report as it is
+    if broken and not violations and runner:
+        for extra in (1, 2):
+            try:
+                runner(prop, cfg, tier, seed + 7919 * extra, wdir, mpv, {}, violations, [], notes)
+                notes.append('search after a broken obligation: generators re-run with seed %d: %d violation(s)' % (seed + 7919 * extra, len(violations)))
+            except Exception as e:  # best effort
+                notes.append('search re-run failed: %s' % e)
+            if violations:
+                break
     return finish(prop, tier, seed, cfg, t0, cov, violations, broken, notes, known)
 
 
